@@ -274,7 +274,16 @@ func (ex *Exec) nativeCall(key string, callee *ssa.Function, c *ssa.CallCommon, 
 		return Val{T: r}, true
 	case "time.NewTicker":
 		note()
-		return Val{T: ex.newRef("ticker")}, true
+		// a fresh ticker whose channel C is a fresh, open channel that the runtime never closes
+		tk := ex.newRef("ticker")
+		tc := ex.newRef("tickerch")
+		st := ex.curState
+		ex.set(st, chClosed, aIntBool, sSto(ex.get(st, chClosed, aIntBool), tc, "false"))
+		ex.set(st, chRecvN, aIntInt, sSto(ex.get(st, chRecvN, aIntInt), tc, "0"))
+		if k, srt, ok := ex.stdFieldKey("time", "Ticker", "C"); ok {
+			ex.set(st, k, "(Array Int "+srt+")", sSto(ex.get(st, k, "(Array Int "+srt+")"), tk, tc))
+		}
+		return Val{T: tk}, true
 	case "(*time.Ticker).Stop", "(*time.Timer).Stop":
 		note()
 		if key == "(*time.Timer).Stop" {
@@ -544,37 +553,233 @@ func (ex *Exec) convertOther(i *ssa.Convert, from, to types.Type, x Val) {
 
 // ---------------------------------------------------------------- goroutines and channels (named special cases)
 
+// Channel state lives in heap components indexed by the channel reference (so frames, loop cuts and `modifies
+// closed(ch)` work as for fields):
+//   F:chan.closed   the channel has been closed
+//   F:chan.recvn    number of values received from it so far (receives that yield ok=false do not count)
+//   F:chan.reg      a producer goroutine has been registered for it by this activation (go-stream)
+//   F:chan.sn       number of values that producer sends before it closes the channel
+//   F:chan.sv:<S>   those values, in order
+const (
+	chClosed = "F:chan.closed"
+	chRecvN  = "F:chan.recvn"
+	chReg    = "F:chan.reg"
+	chSN     = "F:chan.sn"
+	aIntBool = "(Array Int Bool)"
+	aIntInt  = "(Array Int Int)"
+)
+
+func chSV(srt string) (string, string) {
+	return "F:chan.sv:" + sortIdent(srt), "(Array Int (Array Int " + srt + "))"
+}
+
+func (ex *Exec) doMakeChan(i *ssa.MakeChan) {
+	r := ex.newRef("chan")
+	ex.bind(i, r)
+	st := ex.curState
+	ex.set(st, chClosed, aIntBool, sSto(ex.get(st, chClosed, aIntBool), r, "false"))
+	ex.set(st, chRecvN, aIntInt, sSto(ex.get(st, chRecvN, aIntInt), r, "0"))
+	ex.set(st, chReg, aIntBool, sSto(ex.get(st, chReg, aIntBool), r, "false"))
+}
+
 func (ex *Exec) doGo(i *ssa.Go) {
 	// `go f(args)`: the new goroutine runs concurrently with this one and is verified as a function of its own
-	// (started with no lock held); starting it has no effect on this activation's state.
-	ex.vc.assumptions["a goroutine started by `go` is verified separately (as a function entered with no lock held); its start has no effect on the spawning call"] = true
-	top := ex
-	for top.parent != nil {
-		top = top.parent
-	}
+	// (started with no lock held). Its preconditions are obligations of the spawning call.
+	ex.vc.assumptions["a goroutine started by `go` is verified separately (as a function entered with no lock held); its preconditions are checked where it is started and must be stable under the other goroutines"] = true
+	top := ex.topExec()
 	if top.vc.spec != nil {
-		name := calleeName(&i.Call)
 		st := ex.curState
 		ex.set(st, "GOCNT", "Int", "(+ "+ex.get(st, "GOCNT", "Int")+" 1)")
-		_ = name
+		if s := top.vc.spec.Opts["go-stream"]; s != "" {
+			ex.goStream(i, s)
+			return
+		}
+	}
+	ex.goRequires(i)
+}
+
+// goTarget: the function started by a go statement and its closure, if static.
+func (ex *Exec) goTarget(c *ssa.CallCommon) (*ssa.Function, *ssa.MakeClosure) {
+	if c.IsInvoke() {
+		return nil, nil
+	}
+	switch callee := c.Value.(type) {
+	case *ssa.Function:
+		return callee, nil
+	case *ssa.MakeClosure:
+		return callee.Fn.(*ssa.Function), callee
+	}
+	fv := ex.val(c.Value)
+	if fv.Clo != nil {
+		return fv.Clo.Fn.(*ssa.Function), fv.Clo
+	}
+	return fv.Fn, nil
+}
+
+// goRequires: the preconditions of a goroutine under contract are obligations at the go statement.
+func (ex *Exec) goRequires(i *ssa.Go) {
+	callee, clo := ex.goTarget(&i.Call)
+	if callee == nil {
+		return
+	}
+	origin := callee
+	if callee.Origin() != nil {
+		origin = callee.Origin()
+	}
+	key := funcKey(origin)
+	spec := ex.vc.w.Contracts.Funcs[key]
+	if spec == nil || len(spec.GhostParam) > 0 {
+		return
+	}
+	ts := TSubst{}
+	if tps := origin.TypeParams(); tps != nil && len(callee.TypeArgs()) == tps.Len() {
+		for k := 0; k < tps.Len(); k++ {
+			ts[tps.At(k)] = ex.typ(callee.TypeArgs()[k])
+		}
+	} else if origin.Parent() != nil {
+		for k, t := range ex.ts {
+			ts[k] = t
+		}
+	}
+	_ = clo
+	ex.vc.usedSpecs[key] = true
+	pre := ex.curState
+	ev := ex.newEval(pre, pre)
+	ev.ts, ev.fn, ev.pkg = ts, origin, pkgOf(origin)
+	args := ex.args(&i.Call)
+	for k, p := range origin.Params {
+		if k < len(args) {
+			ev.vars[p.Name()] = TV{T: args[k].T, Ty: goVT(ts.apply(p.Type())), Loc: args[k].Loc}
+		}
+	}
+	for k, r := range spec.Requires {
+		if r.Tag == "seq" {
+			continue // a goroutine runs concurrently with everything else: only its mode-independent and [conc] preconditions apply
+		}
+		t := ev.evalBool(r.Expr)
+		ex.vc.oblige(fmt.Sprintf("go.%s.requires[%d]", origin.Name(), k+1), "", i.Pos(), ex.curReach, t, "precondition of the goroutine "+key+": "+r.Text)
 	}
 }
 
-// Channels carry no verified protocol: a send has no effect on memory, a receive yields an arbitrary value.
-func (ex *Exec) doSend(i *ssa.Send) {
-	ex.vc.assumptions["channel operations are not given a protocol: a send has no effect on memory, a receive yields an arbitrary value (blocking and wake-up order are not modelled)"] = true
-	// under `calllog` a send is recorded like a callback invocation: logf(q) is the channel, loga0(q, w) the value
-	// sent -- this lets a contract state WHAT a function sends and in which order (not who receives it or when)
-	top := ex
-	for top.parent != nil {
-		top = top.parent
-	}
-	if top.vc.spec == nil || !top.vc.spec.CallLog {
+// goStream: the function under verification declares (opt go-stream <chan expr>) that the goroutine it starts is
+// the only sender on that channel and that it is the only receiver. The goroutine's contract is applied like a call
+// against a forked call log: what it sends (its log) becomes the stream of the channel, which the receives of this
+// activation then consume in order. Sound if the goroutine writes nothing this activation reads (its modifies clause
+// may name closed(ch) only - checked here) and this activation writes nothing the goroutine reads between the go
+// statement and the last receive (the callback-does-not-touch-the-container assumption covers the callbacks).
+func (ex *Exec) goStream(i *ssa.Go, chanExpr string) {
+	vc := ex.vc
+	vc.assumptions["go-stream: Go channel semantics (an unbuffered or buffered channel delivers to a single receiver exactly the values of its single sender, in order; a receive on a closed, drained channel yields ok=false) are trusted; the goroutine's contract is applied at the go statement"] = true
+	callee, _ := ex.goTarget(&i.Call)
+	if callee == nil {
+		vc.errorf("go-stream: the go statement at %s has no static target", vc.w.pos(i.Pos()))
 		return
 	}
+	origin := callee
+	if callee.Origin() != nil {
+		origin = callee.Origin()
+	}
+	spec := vc.w.Contracts.Funcs[funcKey(origin)]
+	if spec == nil || !spec.CallLog {
+		vc.errorf("go-stream: %s needs a contract with calllog (its sends are its stream)", funcKey(origin))
+		return
+	}
+	e, err := parseExpr(chanExpr)
+	if err != nil {
+		vc.errorf("go-stream: %v", err)
+		return
+	}
+	cev := ex.topExec().evalHere()
+	cev.st = ex.curState
+	chv := cev.rval(cev.eval(e))
+	ch := chv.T
+	var elemSort string
+	if chv.Ty.Go != nil {
+		if ct, ok := chv.Ty.Go.Underlying().(*types.Chan); ok {
+			elemSort = ex.sortOfT(ct.Elem())
+		}
+	}
+	if elemSort == "" {
+		vc.errorf("go-stream: %s is not a channel", chanExpr)
+		return
+	}
+	// the goroutine may modify nothing but the closed flag of its channel
+	for _, m := range spec.Modifies {
+		for _, loc := range splitTop(m.Text, ',') {
+			loc = strings.TrimSpace(loc)
+			if loc == "" || loc == "nothing" || loc == "log" || (strings.HasPrefix(loc, "closed(") && strings.HasSuffix(loc, ")")) {
+				continue
+			}
+			vc.errorf("go-stream: goroutine %s modifies %s; only closed(<its channel>) is allowed", funcKey(origin), loc)
+		}
+	}
 	st := ex.curState
+	// the channel is fresh: nothing received yet, open, no producer
+	ex.vc.oblige("go.stream.fresh", "", i.Pos(), ex.curReach, sAnd(
+		sEq(sSel(ex.get(st, chRecvN, aIntInt), ch), "0"),
+		sNot(sSel(ex.get(st, chClosed, aIntBool), ch)),
+		sNot(sSel(ex.get(st, chReg, aIntBool), ch))), "the channel handed to the producer goroutine is open, unused and has no other producer")
+	// fork the call log
+	saved := map[string]string{}
+	for _, key := range sortedKeys(vc.compKeys()) {
+		if strings.HasPrefix(key, "LOG") {
+			saved[key] = ex.get(st, key, vc.compSort[key])
+		}
+	}
+	savedN := ex.get(st, "LOGN", "Int")
+	savedF := ex.get(st, "LOGF", aIntInt)
+	ex.set(st, "LOGN", "Int", "0")
+	closedBefore := ex.get(st, chClosed, aIntBool)
+	// the goroutine's critical sections are not sections of this activation: old() and the single-writer
+	// bookkeeping of the spawning call are left as they were
+	oldSnap := st.old
+	wroteBefore := ""
+	if vc.conc {
+		wroteBefore = ex.get(st, "WROTE", "Bool")
+	}
+	ex.doCall(nil, &i.Call, i.Pos())
+	post := ex.curState
+	post.old = oldSnap
+	if vc.conc {
+		ex.set(post, "WROTE", "Bool", wroteBefore)
+	}
+	pn := ex.get(post, "LOGN", "Int")
+	pf := ex.get(post, "LOGF", aIntInt)
+	pak := "LOGA0:" + sortIdent(elemSort)
+	pa := ex.get(post, pak, "(Array Int "+elemSort+")")
+	// every entry of the goroutine's log is a send on this channel; it closes the channel and no other
+	q := vc.fresh("q", "Int")
+	_ = q
+	ex.vc.oblige("go.stream.only", "", i.Pos(), ex.curReach, fmt.Sprintf("(and (<= 0 %s) (forall ((q Int)) (! (=> (and (<= 0 q) (< q %s)) (= (select %s q) %s)) :pattern ((select %s q)))))", pn, pn, pf, ch, pf), "the producer goroutine only sends on its channel")
+	closedAfter := ex.get(post, chClosed, aIntBool)
+	ex.vc.oblige("go.stream.closes", "", i.Pos(), ex.curReach, sSel(closedAfter, ch), "the producer goroutine closes its channel when it is done (otherwise the consumer blocks forever)")
+	_ = closedBefore
+	// register the stream
+	svk, svs := chSV(elemSort)
+	ex.set(post, chSN, aIntInt, sSto(ex.get(post, chSN, aIntInt), ch, pn))
+	ex.set(post, svk, svs, sSto(ex.get(post, svk, svs), ch, pa))
+	ex.set(post, chReg, aIntBool, sSto(ex.get(post, chReg, aIntBool), ch, "true"))
+	// back to this activation's own log
+	for key, t := range saved {
+		ex.set(post, key, vc.compSort[key], t)
+	}
+	ex.set(post, "LOGN", "Int", savedN)
+	ex.set(post, "LOGF", aIntInt, savedF)
+}
+
+// A send panics on a closed channel. Under `calllog` a send is recorded like a callback invocation: logf(q) is the
+// channel, loga0(q, w) the value sent -- this lets a contract state WHAT a function sends and in which order.
+func (ex *Exec) doSend(i *ssa.Send) {
+	st := ex.curState
+	ch := ex.val(i.Chan).T
+	ex.nopanic("nopanic.send-closed", i.Pos(), sNot(sSel(ex.get(st, chClosed, aIntBool), ch)), "send on a closed channel")
+	top := ex.topExec()
+	if top.vc.spec == nil || !top.vc.spec.CallLog {
+		ex.vc.assumptions["a send outside call-log mode has no effect on the verified state (who receives it, and when, is not modelled)"] = true
+		return
+	}
 	n := ex.get(st, "LOGN", "Int")
-	ex.set(st, "LOGF", "(Array Int Int)", sSto(ex.get(st, "LOGF", "(Array Int Int)"), n, ex.val(i.Chan).T))
+	ex.set(st, "LOGF", "(Array Int Int)", sSto(ex.get(st, "LOGF", "(Array Int Int)"), n, ch))
 	srt := ex.sortOfT(i.X.Type())
 	key := fmt.Sprintf("LOGA0:%s", sortIdent(srt))
 	as := "(Array Int " + srt + ")"
@@ -582,16 +787,52 @@ func (ex *Exec) doSend(i *ssa.Send) {
 	ex.set(st, "LOGN", "Int", "(+ "+n+" 1)")
 }
 
+// recvFrom: the protocol of one receive from ch yielding (v, ok) under the path condition cond.
+//   - ok=false only on a closed channel, and then v is the zero value;
+//   - if a producer stream is registered for ch (go-stream), the k-th receive yields its k-th value, ok=false exactly
+//     when the stream is exhausted, and being exhausted without the channel closed is a deadlock (obligation);
+//   - the receive counter of ch grows by one iff ok.
+func (ex *Exec) recvFrom(ch, v, ok, cond string, et types.Type, pos token.Pos) {
+	st := ex.curState
+	srt := ex.sortOfT(et)
+	k := sSel(ex.get(st, chRecvN, aIntInt), ch)
+	closed := sSel(ex.get(st, chClosed, aIntBool), ch)
+	reg := sSel(ex.get(st, chReg, aIntBool), ch)
+	sn := sSel(ex.get(st, chSN, aIntInt), ch)
+	svk, svs := chSV(srt)
+	sv := sSel(sSel(ex.get(st, svk, svs), ch), k)
+	guard := sAnd(ex.curReach, cond)
+	ex.vc.oblige("recv.no-deadlock", "", pos, guard, sImp(reg, sOr("(< "+k+" "+sn+")", closed)), "a receive from a channel whose producer has sent everything finds the channel closed (otherwise it blocks forever)")
+	ex.vc.assume(sImp(guard, sAnd(
+		sImp(sNot(ok), sAnd(closed, sEq(v, ex.vc.zeroOf(ex.typ(et))))),
+		sImp(reg, sAnd(sEq(ok, "(< "+k+" "+sn+")"), sImp(ok, sEq(v, sv)))))))
+	rn := ex.get(st, chRecvN, aIntInt)
+	ex.set(st, chRecvN, aIntInt, sIte(sAnd(cond, ok), sSto(rn, ch, "(+ "+k+" 1)"), rn))
+}
+
 func (ex *Exec) doRecv(i *ssa.UnOp) {
-	ex.vc.assumptions["channel operations are not given a protocol: a send has no effect on memory, a receive yields an arbitrary value (blocking and wake-up order are not modelled)"] = true
-	if i.CommaOk {
-		ex.vals[i] = Val{Tup: []Val{{T: ex.vc.fresh(ex.pfx+i.Name(), ex.sortOfT(ex.typ(i.Type()).(*types.Tuple).At(0).Type()))}, {T: ex.vc.fresh(ex.pfx+i.Name()+"_ok", "Bool")}}}
-		return
+	ex.vc.assumptions["channel receives: a value received from a channel without a registered producer stream is arbitrary (blocking and wake-up order are not modelled)"] = true
+	ch := ex.val(i.X).T
+	var et types.Type
+	if ct, ok := ex.typ(i.X.Type()).Underlying().(*types.Chan); ok {
+		et = ct.Elem()
 	}
-	ex.vals[i] = Val{T: ex.vc.fresh(ex.pfx+i.Name(), ex.sortOfT(i.Type()))}
+	var v, ok string
+	if i.CommaOk {
+		v = ex.vc.fresh(ex.pfx+i.Name(), ex.sortOfT(ex.typ(i.Type()).(*types.Tuple).At(0).Type()))
+		ok = ex.vc.fresh(ex.pfx+i.Name()+"_ok", "Bool")
+		ex.vals[i] = Val{Tup: []Val{{T: v}, {T: ok}}}
+	} else {
+		v = ex.vc.fresh(ex.pfx+i.Name(), ex.sortOfT(i.Type()))
+		ok = ex.vc.fresh(ex.pfx+i.Name()+"_ok", "Bool")
+		ex.vals[i] = Val{T: v}
+	}
+	if et != nil {
+		ex.recvFrom(ch, v, ok, "true", et, i.Pos())
+	}
 	// a receive may block: the clock moves on, and past the due time if the channel came from time.After
 	// (TDUE of any other channel is an unconstrained value, which makes this no constraint for them)
-	if _, used := ex.vc.compSort["TDUE"]; used {
+	if _, used := ex.vc.compSort["TDUE"]; used && !i.CommaOk {
 		st := ex.curState
 		n := ex.vc.fresh(ex.pfx+"now", "Int")
 		ex.vc.assume("(and (>= " + n + " " + ex.get(st, "CLK", "Int") + ") (>= " + n + " " + sSel(ex.get(st, "TDUE", "(Array Int Int)"), ex.val(i.X).T) + "))")
@@ -600,26 +841,49 @@ func (ex *Exec) doRecv(i *ssa.UnOp) {
 	}
 }
 
-// doSelect: a blocking select takes one of its cases, nondeterministically; received values are arbitrary.
+// doSelect: a blocking select takes one of its cases, nondeterministically; a receive case follows the receive
+// protocol of its channel.
 func (ex *Exec) doSelect(i *ssa.Select) {
-	ex.vc.assumptions["channel operations are not given a protocol: a send has no effect on memory, a receive yields an arbitrary value (blocking and wake-up order are not modelled)"] = true
+	ex.vc.assumptions["select takes any of its cases (readiness and fairness are not modelled)"] = true
 	idx := ex.vc.fresh(ex.pfx+i.Name()+"_case", "Int")
 	lo := "0"
 	if !i.Blocking {
 		lo = "(- 1)"
 	}
 	ex.vc.assume(fmt.Sprintf("(and (<= %s %s) (< %s %d))", lo, idx, idx, len(i.States)))
-	tup := []Val{{T: idx}, {T: ex.vc.fresh(ex.pfx+i.Name()+"_rok", "Bool")}}
+	rok := ex.vc.fresh(ex.pfx+i.Name()+"_rok", "Bool")
+	tup := []Val{{T: idx}, {T: rok}}
 	tt := ex.typ(i.Type()).(*types.Tuple)
 	for k := 2; k < tt.Len(); k++ {
 		tup = append(tup, Val{T: ex.vc.fresh(ex.pfx+i.Name()+"_rv", ex.sortOfT(tt.At(k).Type()))})
 	}
 	ex.vals[i] = Val{Tup: tup}
+	r := 2
+	for k, s := range i.States {
+		cond := fmt.Sprintf("(= %s %d)", idx, k)
+		ch := ex.val(s.Chan).T
+		if s.Dir == types.RecvOnly {
+			ct, ok := ex.typ(s.Chan.Type()).Underlying().(*types.Chan)
+			if ok && r < len(tup) {
+				ex.recvFrom(ch, tup[r].T, rok, cond, ct.Elem(), s.Pos)
+			}
+			r++
+		} else {
+			ex.vc.oblige("nopanic.send-closed", "", s.Pos, sAnd(ex.curReach, cond), sNot(sSel(ex.get(ex.curState, chClosed, aIntBool), ch)), "send on a closed channel")
+		}
+	}
+}
+
+// chanClose: close(ch) panics on a nil or closed channel.
+func (ex *Exec) chanClose(ch string, pos token.Pos) {
+	st := ex.curState
+	cl := ex.get(st, chClosed, aIntBool)
+	ex.nopanic("nopanic.close", pos, sAnd(sNot(sEq(ch, "0")), sNot(sSel(cl, ch))), "close of a nil or closed channel")
+	ex.set(st, chClosed, aIntBool, sSto(cl, ch, "true"))
 }
 
 func isTimeAfterRecv(i *ssa.UnOp) *ssa.Call { return nil }
 
-func (ex *Exec) chanClose(ch string) {}
 
 var _ = strings.Contains
 
@@ -641,6 +905,28 @@ func (ex *Exec) muOwnerType(v ssa.Value) string {
 		return namedKey(n)
 	}
 	return ""
+}
+
+// stdFieldKey: component key and sort of a field of a standard-library struct type.
+func (ex *Exec) stdFieldKey(pkg, typ, field string) (string, string, bool) {
+	for _, p := range ex.vc.w.Prog.AllPackages() {
+		if p.Pkg.Path() == pkg {
+			if tn, ok := p.Pkg.Scope().Lookup(typ).(*types.TypeName); ok {
+				n := tn.Type().(*types.Named)
+				st, ok := n.Underlying().(*types.Struct)
+				if !ok {
+					return "", "", false
+				}
+				for i := 0; i < st.NumFields(); i++ {
+					if st.Field(i).Name() == field {
+						k, srt, _ := ex.fieldKey(n, st, i)
+						return k, srt, true
+					}
+				}
+			}
+		}
+	}
+	return "", "", false
 }
 
 // condLocker: the lock c.L of a *sync.Cond c.
